@@ -1,6 +1,6 @@
 --------------------------------- MODULE Normalize ---------------------------------
 (* C14: normalisation as a state machine.  The abstract state of a molecule under normalisation is
-     [heavy : Seq(<<z, isotope, count>>)   non-hydrogen atoms as a multiset,
+     [heavy : Seq(<<z, isotope, count>>)   non-hydrogen atoms and labelled hydrogens (D, T) as a multiset,
       q     : net charge,   h : all hydrogens (implicit counts + hydrogen atoms; -1 when a count is unknown),
       bad   : number of atoms in valence error,   xh : hydrogen atoms that are plain ligands of a heavy atom,
       ih    : implicit hydrogens, s : canonical string, g : [atoms : Seq([n, z, i, c, r, h]), bonds : Seq(<<a, b, order>>)]]
@@ -53,8 +53,11 @@ Inverse(pre, first, second) ==
    are outside f and are compared through the canonical string.  Which Kekule structure an aromatic ring gets depends on the atom
    order (any one is right), so states are compared in their aromatic normal form (ga, sa). *)
 MapOf(f) == [n \in { p[1] : p \in { f[k] : k \in 1..Len(f) } } |-> (CHOOSE p \in { f[k] : k \in 1..Len(f) } : p[1] = n)[2]]
-Restrict(g, D, mp) == [atoms |-> { [a EXCEPT !.n = mp[a.n]] : a \in { g.atoms[k] : k \in { j \in 1..Len(g.atoms) : g.atoms[j].n \in D } } },
-                       bonds |-> { {<<mp[b[1]], b[3]>>, <<mp[b[2]], b[3]>>} : b \in { g.bonds[k] : k \in { j \in 1..Len(g.bonds) : g.bonds[j][1] \in D /\ g.bonds[j][2] \in D } } }]
+\* the non-hydrogen atoms of D (hydrogen atoms come and go with explicify / implicify and reuse numbers) and the bonds among them
+Heavy(g, D) == { g.atoms[j].n : j \in { k \in 1..Len(g.atoms) : g.atoms[k].n \in D /\ g.atoms[k].z # 1 } }
+Restrict(g, D, mp) == LET HD == Heavy(g, D) IN
+                      [atoms |-> { [a EXCEPT !.n = mp[a.n]] : a \in { g.atoms[k] : k \in { j \in 1..Len(g.atoms) : g.atoms[j].n \in HD } } },
+                       bonds |-> { {<<mp[b[1]], b[3]>>, <<mp[b[2]], b[3]>>} : b \in { g.bonds[k] : k \in { j \in 1..Len(g.bonds) : g.bonds[j][1] \in HD /\ g.bonds[j][2] \in HD } } }]
 Ident(D) == [n \in D |-> n]
 Equivariant(f, a, b) ==
   LET mp == MapOf(f)  D == DOMAIN mp  E == { mp[n] : n \in D } IN
